@@ -54,7 +54,11 @@ cp "$BINDING_CONTEXT_PATH" "$D/context.$n"
 [ -f "$D/patch.out" ] && cat "$D/patch.out" > "$KUBERNETES_PATCH_PATH"
 [ -f "$D/admission.out" ] && cat "$D/admission.out" > "$ADMISSION_RESPONSE_PATH"
 [ -f "$D/conversion.out" ] && cat "$D/conversion.out" > "$CONVERSION_RESPONSE_PATH"
-exit $(cat "$D/exit")
+e=$(cat "$D/exit")
+case "$e" in
+  -*) kill "$e" $$; sleep 5 ;;
+esac
+exit $e
 `
 
 var c12contents = map[string][4]string{
@@ -225,10 +229,11 @@ func c12run(exit int, variant [4]int, nctx int) (sig, what, outcome string) {
 func TestVerifC12a(t *testing.T) {
 	r := vres.New("c12a")
 	defer r.Finish()
-	r.Bound("exit_codes", []int{0, 1, 2})
+	exits := []int{0, 1, 2, 255, -9, -15} // negative: the process ends by that signal
+	r.Bound("exit_codes_and_signals", exits)
 	r.Bound("file_variants", c12variants)
 	var ord int64
-	for exit := 0; exit <= 2; exit++ {
+	for _, exit := range exits {
 		for v := 0; v < 256; v++ {
 			variant := [4]int{v & 3, (v >> 2) & 3, (v >> 4) & 3, (v >> 6) & 3}
 			ord++
